@@ -60,6 +60,13 @@ def run(db, rep, tier):
     r6_legacy(db, rep)
     r4(db, rep)
     r5(db, rep)
+    rep.rule("R7-serial-compare", "Internals::seq_compare is serial-number comparison over the FULL half space: executed on boundary pairs, its "
+                                  "sign is that of the 32-bit difference read as a signed number for every distance except exactly 2^31", 1)
+    r7_serial(db, rep)
+    rep.rule("R8-data-reaches-tracker", "Flow::process_packet hands the payload of EVERY segment that has a TCP layer and a payload to the data "
+                                        "tracker unless the user switched data off: nothing else (the flow's state, flags of the segment) "
+                                        "can divert it", 1)
+    r8_reach(db, rep)
     rep.explanation = ("Also: (R4) DataTracker::sequence_number(x) is called from Flow only under state_ == UNKNOWN - a retransmitted SYN "
                        "cannot rewind a flow that already delivered data; (R5) decision table of TCPStream::safe_insert. "
                        "Decides three structural clauses of C06: (R1) byte-counter accounting of DataTracker's out-of-order "
@@ -72,6 +79,92 @@ def run(db, rep, tier):
 
 
 # ---------------------------------------------------------------------------
+def r8_reach(db, rep):
+    from vlib import formula
+    fs = [f for f in db.fns_named("Tins::TCPIP::Flow::process_packet") if f.get("body")]
+    if not fs:
+        rep.analysis_broken("Flow::process_packet vanished")
+        return
+    f = fs[0]
+    g = cfg.FnCFG(f)
+    sink = [x for x in facts.fn_nodes(f) if x["k"] == "CXXMemberCallExpr" and x.get("cname") == "process_payload"]
+    if not sink:
+        rep.violation("R8-data-reaches-tracker", "Flow::process_packet", facts.loc(f), "the payload is never handed to the data tracker")
+        return
+    # the two layer pointers, by what they are initialised with
+    layer = {}
+    for v in facts.fn_nodes(f):
+        if v["k"] == "VarDecl" and v.get("c") and v.get("name"):
+            t = facts.expr_str(v["c"][0])
+            if "find_pdu" in t:
+                tn = ((facts.tyi(f, v.get("t")) or {}).get("s") or "")
+                if "TCP" in tn:
+                    layer[v["name"]] = "tcp"
+                elif "RawPDU" in tn:
+                    layer[v["name"]] = "raw"
+    roles = {"tcp": lambda a: layer.get(a.strip()) == "tcp", "raw": lambda a: layer.get(a.strip()) == "raw",
+             "off": lambda a: "ignore_data_packets" in a}
+    try:
+        atoms, table = formula.must_table(f, g.pos(sink[0]), lambda a: any(p_(a) for p_ in roles.values()))
+    except facts.AnalysisBroken as e:
+        rep.analysis_broken("Flow::process_packet: %s" % e)
+        return
+    role_of = dict((a, r_) for a in atoms for r_, p_ in roles.items() if p_(a))
+    if sorted(role_of.values()) != ["off", "raw", "tcp"]:
+        rep.analysis_broken("Flow::process_packet: the tests of the TCP layer, the payload and ignore_data_packets were not recognised among %s" % atoms)
+        return
+    bad = None
+    for vals, must in table.items():
+        env = dict((role_of[a], v) for a, v in zip(atoms, vals))
+        if env["tcp"] and env["raw"] and not env["off"] and not must:
+            bad = "a segment with a TCP layer and a payload, data not switched off, can leave process_packet without its payload reaching " \
+                  "DataTracker::process_payload (some other condition returns first): bytes the peer sent - e.g. the payload carried by a " \
+                  "FIN or RST segment, or data reordered behind it - are never delivered"
+    if bad:
+        rep.violation("R8-data-reaches-tracker", "Flow::process_packet", facts.loc(f, sink[0]), bad)
+    else:
+        rep.ok("R8-data-reaches-tracker", "Flow::process_packet", facts.loc(f, sink[0]), "reached on every path when tcp && payload && !ignore_data_packets")
+
+
+def r7_serial(db, rep):
+    from vlib import ieval
+    fs = [f for fid, f in db.functions.items() if fid.startswith("Tins::Internals::seq_compare(") and f.get("body")]
+    if not fs:
+        rep.analysis_broken("Internals::seq_compare vanished")
+        return
+    f = fs[0]
+    a, b = f["params"][0]["var"], f["params"][1]["var"]
+    M = 1 << 32
+    bases = (0, 1, 0x7fffffff, 0x80000000, 0xfffffff0, 0xffffffff, 0x12345678)
+    dists = (0, 1, 2, 0xffff, 0x10000, (1 << 30) - 1, 1 << 30, (1 << 30) + 1, (1 << 31) - 1, (1 << 31) + 1, M - (1 << 30), M - 2, M - 1)
+    bad = None
+    n = 0
+    try:
+        for s2 in bases:
+            for d in dists:
+                s1 = (s2 + d) % M
+                want = 0 if d == 0 else (1 if d < (1 << 31) else -1)
+                r = ieval.run_body(f, f["body"], {a: s1, b: s2, "__db__": db})
+                if r is None:
+                    raise ieval.Unknown("no value returned")
+                if r >= (1 << 31):
+                    r -= M
+                got = (r > 0) - (r < 0)
+                n += 1
+                if got != want and bad is None:
+                    bad = ("seq_compare(0x%08x, 0x%08x) is %d, but the first is %s the second by 0x%x (mod 2^32): sequence numbers between 2^30 "
+                           "and 2^31 apart - a stale segment far behind the stream position, a position far ahead - are ordered backwards, "
+                           "so such a segment is buffered as future data instead of being dropped, or the reverse" %
+                           (s1, s2, got, "ahead of" if want > 0 else ("behind" if want < 0 else "equal to"), d if want >= 0 else M - d))
+    except ieval.Unknown as e:
+        rep.undecided("R7-serial-compare", "seq_compare", facts.loc(f), "outside the finite evaluator: %s" % e)
+        return
+    if bad:
+        rep.violation("R7-serial-compare", "seq_compare", facts.loc(f), bad)
+    else:
+        rep.ok("R7-serial-compare", "seq_compare", facts.loc(f), "sign of the signed 32-bit difference on all %d boundary pairs" % n)
+
+
 def r1(db, rep):
     if DT not in db.records:
         rep.analysis_broken("class %s not found" % DT)
